@@ -74,9 +74,9 @@ func specIsLast(n *Node) bool {
 //@   ensures untouched [C02]: !result ==> (forall q *Node :: {q.children} q.children == old(q.children)) && (forall q *Node :: {q.parent} q.parent == old(q.parent))
 //@   ensures mono [C02]: forall q *Node :: {q.children} len(old(q.children)) <= len(q.children) && take(q.children, len(old(q.children))) == old(q.children)
 //@ loop gtree.stack.dfs#1
-//@   invariant popped: s.nodes.view == take(old(s.nodes.view), size - $i) && size == len(old(s.nodes.view))
+//@   invariant popped: s.nodes.view == take(old(s.nodes.view), $n - $i) && $n == len(old(s.nodes.view))
 //@   invariant heap: (forall q *Node :: {q.children} q.children == old(q.children)) && (forall q *Node :: {q.parent} q.parent == old(q.parent))
-//@   invariant nomatch: old(chain(s)) ==> (forall k int :: {old(s.nodes.view)[k]} size - $i <= k && k < size ==> k + 2 != current.hierarchy)
+//@   invariant nomatch: old(chain(s)) ==> (forall k int :: {old(s.nodes.view)[k]} $n - $i <= k && k < $n ==> k + 2 != current.hierarchy)
 
 
 // ---------------------------------------------------------------------------------------------
